@@ -278,13 +278,15 @@ func (m *ldbManager) Get(identifier types.HashHeight) DB {
 		})
 	}
 
-	// rawChanges uses the encoding of enableDelete (empty value = not present), exactly like the frontier
+	// rawChanges uses the encoding of enableDelete (empty value = not present), exactly like the frontier;
+	// a scan of a historical view never lists keys that were not present at that commit
 	u := newMergedDb([]db{
 		newMemDBInternal(),
-		newMergedDb([]db{
-			rawChanges,
-			newSubDB(frontierByte, newLevelDBSnapshotWrapper(snapshot)),
-		}),
+		newSkipTombstones(
+			newMergedDb([]db{
+				rawChanges,
+				newSubDB(frontierByte, newLevelDBSnapshotWrapper(snapshot)),
+			})),
 	})
 	return enableDelete(u)
 }
